@@ -4,7 +4,7 @@ C05 — the tables and constants the model uses are those of the *current* sourc
 theorems compare.  (A change of the labs model/method table, of the fMRI model list, of the
 `Tcontrast` store names or of the Kalman prior variance breaks the build, hence the check.)
 -/
-import NipyVerif.Model.C05D
+import NipyVerif.Model.C05E
 import NipyVerif.Gen.C05Tables
 
 namespace NipyVerif.C05
@@ -18,6 +18,9 @@ theorem tcon_store_table_current : tconStoreTable = Gen.tconStore ∧
 
 /-- `FFF_GLM_KALMAN_INIT_VAR` -/
 theorem kf_init_var_current : kfInitVar = Gen.kfInitVar := by decide +kernel
+
+/-- `FFF_TINY` of `lib/fff/fff_base.h` (the floor of `FFF_ENSURE_POSITIVE` in the refined Kalman filter) -/
+theorem fff_tiny_current : fffTiny = Gen.fffTiny := by decide +kernel
 
 /-- the table-driven guard is the guard of the base model on every input -/
 theorem guardLabs_table (model method : String) (nY nX : Nat) :
